@@ -46,7 +46,7 @@ class C17(Prop):
     floors = {'quick': (300, 100), 'thorough': (5000, 1500)}
     must_reach = []
     quick_cases = 3000
-    thorough_cases = 300000
+    thorough_cases = 2500000
     shrink_data = False
 
     def gen(self, rng, ctx):
